@@ -13,18 +13,24 @@ Rec == ndJsonDeserialize(IOEnv.TRACE)
 VARIABLE l
 
 RangeOf(sq) == { sq[i] : i \in DOMAIN sq }
-ToPA(j) == [act |-> RangeOf(j.act), val |-> RangeOf(j.val)]
+\* Logged positions are REAL positions of a store that may be much wider than the few positions a sequence uses (machine-word
+\* and bitmap-container boundaries); the record's `pos` list names the used ones, and everything is judged on their indices.
+\* A real position outside the list (a literal nobody wrote) becomes index 0, which no total assignment has: it fails P1 / P4.
+IdxIn(pos, p) == IF \E i \in DOMAIN pos : pos[i] = p THEN CHOOSE i \in DOMAIN pos : pos[i] = p ELSE 0
+ToPAp(pos, j) == [act |-> { IdxIn(pos, p) : p \in RangeOf(j.act) }, val |-> { IdxIn(pos, p) : p \in RangeOf(j.val) }]
 
 RECURSIVE Replay(_, _, _)
 Replay(steps, i, st) == IF i > Len(steps) THEN st
-                        ELSE Replay(steps, i + 1, AddNg(st, steps[i].mode, ToPA(steps[i].add)))
+                        ELSE Replay(steps, i + 1, AddNg(st, steps[i].mode, steps[i].add))
 
 Report(ok, id, what, q) == ok \/ PrintT(<<"MISMATCH", l, id, "C18", what, q>>)
 
 Check(r) ==
-  LET added == { ToPA(r.steps[i].add) : i \in DOMAIN r.steps }
+  LET ToPA(j) == ToPAp(r.pos, j)
+      psteps == [i \in DOMAIN r.steps |-> [mode |-> r.steps[i].mode, add |-> ToPA(r.steps[i].add)]]
+      added == { psteps[i].add : i \in DOMAIN r.steps }
       hasEmpty == \E ng \in added : ng.act = {}
-      model == Replay(r.steps, 1, EmptyStore)
+      model == Replay(psteps, 1, EmptyStore)
       dumpSet == UNION { { ToPA(r.dump[k][j]) : j \in DOMAIN r.dump[k] } : k \in DOMAIN r.dump }
   IN
   /\ \A qi \in DOMAIN r.queries :
